@@ -16,7 +16,7 @@ RULE = ('seeded generator: complex pupil fields 2..20 per side, integers N_r, N_
 ASSUMPTIONS = ['1/alpha is an integer number of samples on each axis (commensurate sampling), as the property states']
 PLAN = {'quick': {'gen': 8}, 'thorough': {'gen': 16, 'tests': 1, 'docs': 1}}
 REQUIRED_BUCKETS = ['N:rect', 'N:square', 'dx:aniso', 'dx:iso', 'os=1', 'os=2', 'os=3', 'N:odd', 'N:even', 'fft', 'dft',
-                    'nested', 'normalize_power', 'fft:any-period', 'fft:period%os!=0', 'amp:signed']
+                    'nested', 'normalize_power', 'normalize_power:small-int', 'fft:any-period', 'fft:period%os!=0', 'amp:signed']
 REQUIRED_ANCHORS = ['probe:propagate_dft', 'probe:propagate_fft', 'anchor:_fft2', 'anchor:normalize_power',
                     'anchor:dft2']
 REQUIRED_ORACLES = ['dft:full-period', 'fft:full-period', 'nested:monotone', 'intensity>=0', 'normalize_power',
@@ -254,8 +254,19 @@ def workload(ctx, lentil):
             a = np.round(a * 5).astype(np.int64)            # integer-typed amplitude maps (e.g. binary masks)
             if not np.any(a):
                 a[0, 0] = 1
+        if i % 9 == 4:
+            # apertures held as boolean / small-integer arrays (r < R, masks read from image files): 0/1 maps with more open
+            # samples than the type could count, and grey-level maps near full scale
+            dt = [bool, np.uint8, np.int8, np.int16, np.uint16][int(rng.integers(0, 5))]
+            big = (int(rng.integers(17, 24)), int(rng.integers(17, 24)))
+            if dt is bool or rng.random() < 0.5:
+                a = (rng.random(big) < 0.9).astype(dt)
+            else:
+                a = rng.integers(int(np.iinfo(dt).max * 0.5), np.iinfo(dt).max, size=big, endpoint=True).astype(dt)
+            shape = big
+            ctx.bucket('normalize_power:small-int')
         p = float(np.exp(rng.uniform(np.log(1e-3), np.log(1e6)))) if rng.random() < 0.8 else 1
-        kindp = i % 5
+        kindp = i % 5 if a.dtype.kind in 'fc' else 0
         if kindp == 3:
             # input whose power is already within 1e-9..1e-4 (relative) of the target: still has to come out at exactly p
             a = a * np.sqrt(p / np.sum(np.abs(a) ** 2)) * (1 + float(10 ** rng.uniform(-9, -4)) * rng.choice([-1, 1]))
@@ -266,10 +277,12 @@ def workload(ctx, lentil):
         desc = {'normalize_power': list(shape), 'p': p, 'complex': bool(np.iscomplexobj(a))}
         ctx.case(desc, ['normalize_power'], nontrivial=a.size > 1)
         b = lentil.normalize_power(a, p) if p != 1 or rng.random() < 0.5 else lentil.normalize_power(a)
+        af = a.astype(complex if np.iscomplexobj(a) else float)      # the same numbers, in a type that cannot wrap
+        desc['dtype'] = str(a.dtype)
         ctx.close('normalize_power', np.array([np.sum(np.abs(b) ** 2)]), np.array([p]), 1e-12, 'normalize_power|power',
                   'normalize_power(a, p) does not have power p', desc, scale=p)
-        ctx.close('normalize_power', b * np.sqrt(np.sum(np.abs(a) ** 2) / p), a, 1e-12, 'normalize_power|direction',
-                  'normalize_power changed more than the overall scale', desc, scale=float(np.abs(a).max()))
+        ctx.close('normalize_power', b * np.sqrt(np.sum(np.abs(af) ** 2) / p), af, 1e-12, 'normalize_power|direction',
+                  'normalize_power changed more than the overall scale', desc, scale=float(np.abs(af).max()))
         if i % 4 == 0 and not np.iscomplexobj(a) and min(shape) >= 2:
             wl, z, dx0 = 6e-7, 5.0, 1e-3
             N = max(shape) + 3
